@@ -7,6 +7,10 @@
 // the real Engine.Open + LoadMetadataIndex, read through the real cursor iterator, written to once more, then
 // copied without closing (second process death) and recovered again. The oracle is a map written from the
 // property statement.
+//
+// Reader-held family (heldHistories): the ops "hold" / "release" keep read cursors (TSM file references) open
+// across a compaction, so that FileStore.replace commits through its in-use path (rename to *.tsm.tmp, tombstone
+// removal, purger); every syscall boundary of that path is a crash cut.
 package c02
 
 import (
@@ -1393,6 +1397,7 @@ func run(c *vlib.Ctx) {
 	scratch := vlib.Scratch("c02-")
 	defer os.RemoveAll(scratch)
 
+	tPhase := time.Now()
 	// 1. record (in parallel)
 	logs := make([]*crashfs.Log, len(hs))
 	errs := make([]error, len(hs))
@@ -1423,6 +1428,8 @@ func run(c *vlib.Ctx) {
 		logs[hi] = nil
 	}
 
+	c.Logf("phase record: %v", time.Since(tPhase).Round(time.Millisecond))
+	tPhase = time.Now()
 	// 2. enumerate images, group by content
 	var groups []*group
 	final := map[int]string{} // per history: hash of the final model state
@@ -1477,6 +1484,8 @@ func run(c *vlib.Ctx) {
 		c.Logf("history %s: %d events, generated %v, distinct %v, contents %d", hs[hi].Name, len(l.Events), st.Generated, st.Distinct, st.Contents)
 	}
 
+	c.Logf("phase enumerate: %v (%d distinct contents)", time.Since(tPhase).Round(time.Millisecond), len(groups))
+	tPhase = time.Now()
 	// 3. recover every distinct content in subprocess batches
 	nw := runtime.NumCPU()
 	if nw > 16 {
@@ -1574,6 +1583,7 @@ func run(c *vlib.Ctx) {
 		c.Cap("wall budget reached: recovery was run for a prefix of the (history-ordered, simplest-first) image list only")
 	}
 
+	c.Logf("phase recover: %v (%d batches)", time.Since(tPhase).Round(time.Millisecond), len(jobs))
 	// 4. judge every (content, context)
 	recovered := map[string]struct{}{}
 	for _, g := range groups {
@@ -1712,11 +1722,12 @@ func TestCheck(t *testing.T) {
 	}
 	vlib.Main(t, &vlib.Check{
 		ID: "C02", Level: "fault_enumeration",
-		Rule: "crash images of recorded real histories on a tsm1.Engine (quick: 3 histories wal-only / snapshot-delete / compact-level; thorough: 14 incl. full compaction, WAL segment roll with 60-byte segments, tombstone rewrite, delete over two TSM files, field-set changes, Close(flush)); per history every prefix of the syscall-level event list (P), every torn length 1..n-1 of the write in flight (T; all lengths, writes > 4096 bytes would be subsampled and counted), and for *.wal/*.tsm/*.tombstone/*.tmp files the images with un-fsynced data dropped or its last write torn (U); directory operations in program order; images deduplicated by (content, acknowledged ops, op in flight); one evaluation = one (image, acknowledgement context) recovered by a fresh process with Engine.Open+LoadMetadataIndex, read over all keys and the full time range through CreateCursorIterator, written once more, copied without closing, reopened, read and written again; oracle = map of acknowledged ops applied in order, the one op in flight may be applied per point or not; non-trivial = images whose recovered state is neither empty nor the history's final state",
+		Rule: "crash images of recorded real histories on a tsm1.Engine (quick: 3 histories wal-only / snapshot-delete / compact-level; thorough: 14 incl. full compaction, WAL segment roll with 60-byte segments, tombstone rewrite, delete over two TSM files, field-set changes, Close(flush); both tiers: the 12 reader-held histories = {full compaction of 2 files, level compaction of the first 2 of 3 files} x {acknowledged range delete, acknowledged whole-series delete leaving a tombstone file next to TSM file 1} x {read cursors (Engine.KeyCursor, kept open = TSM file references held) on the tombstoned file 1 only, on the tombstone-free file 2 only, on both} as [write, snapshot, delete, write, snapshot, (write, snapshot,) hold, compaction, release]: FileStore.replace then takes its in-use path (rename old file to .tsm.tmp, remove its tombstone file, purger unlinks the .tsm.tmp once the cursors are closed) for the held files and its ordinary path for the others; of these histories only the images cut after the hold op began are recovered (the ops before it build the fixture), quick: prefix images P only = every syscall boundary of the compaction commit and of the purge, thorough: P, T and U); per history every prefix of the syscall-level event list (P), every torn length 1..n-1 of the write in flight (T; all lengths, writes > 4096 bytes would be subsampled and counted), and for *.wal/*.tsm/*.tombstone/*.tmp files the images with un-fsynced data dropped or its last write torn (U); directory operations in program order; images deduplicated by (content, acknowledged ops, op in flight); one evaluation = one (image, acknowledgement context) recovered by a fresh process with Engine.Open+LoadMetadataIndex, read over all keys and the full time range through CreateCursorIterator, written once more, copied without closing, reopened, read and written again; oracle = map of acknowledged ops applied in order, the one op in flight may be applied per point or not; non-trivial = images whose recovered state is neither empty nor the history's final state; reader-held histories: images cut inside the compaction or the release op",
 		Assumptions: []string{
 			"ordered-metadata crash model: directory operations persist in program order (un-fsynced renames/unlinks are not dropped); file data of sync-class files may be lost back to the last fsync (U images)",
 			"the series file and the tsi1 index live outside the crash image (their crash clauses are C13/C14); reads go through the engine's cursor iterator, which does not consult them",
 			"event order between concurrent threads of the writer is syscall completion order",
+			"reader-held histories: a reader is a tsm1.KeyCursor obtained from Engine.KeyCursor (what every query cursor holds underneath) that stays open across the compaction; the writer verifies the intended in-use pattern of the TSM files right after the hold op; the release op is complete when the purger has unlinked the replaced files",
 			"writes are performed as tsdb.Shard.WritePoints does (series creation, ValidateAndCreateFields, MeasurementFieldSet.Save, Engine.WritePoints) using exported API, not through a tsdb.Shard object",
 		},
 		Workers: 1, QuickBudgetS: 75, ThoroughBudgetS: 840,
